@@ -139,6 +139,10 @@ func execOp(inst schema.Type, callable *schema.CallableSchema, op Op) opOutcome 
 			o.val, o.err = s, serr != nil
 		case "compat":
 			o.err = inst.ValidateCompatibility(op.Arg.Go()) != nil
+		case "compat_schema", "compat_schema_mutant":
+			// schema mode: against an identically built twin, or against a twin with one leaf of another kind (which
+			// an isolated call refuses) - whoever else is inside the same comparison at the moment
+			o.err = inst.ValidateCompatibility(otherSchema(op.Op == "compat_schema_mutant")) != nil
 		case "describe":
 			// self-description walks the package-level meta-schema (and its one-of tables) with this schema as data
 			if sc, ok := inst.(*schema.ScopeSchema); ok {
@@ -170,6 +174,39 @@ func execOp(inst schema.Type, callable *schema.CallableSchema, op Op) opOutcome 
 		}
 	})
 	return o
+}
+
+// currentSpec is the description of the trial that runs in this worker (one trial at a time).
+var currentSpec *spec.Spec
+
+// otherSchema builds the schema the instance is compared with in schema mode.
+func otherSchema(mutant bool) schema.Type {
+	s := currentSpec
+	if mutant {
+		b, _ := json.Marshal(currentSpec)
+		var c spec.Spec
+		_ = json.Unmarshal(b, &c)
+		done := false
+		spec.Walk(&c, func(n *spec.Spec) {
+			if done {
+				return
+			}
+			switch n.Kind {
+			case spec.KInt, spec.KFloat, spec.KBool:
+				*n = spec.Spec{Kind: spec.KString}
+				done = true
+			case spec.KString, spec.KPattern:
+				*n = spec.Spec{Kind: spec.KBool}
+				done = true
+			}
+		})
+		s = &c
+	}
+	t, err := spec.Build(s)
+	if err != nil {
+		panic("harness: other schema does not build: " + err.Error())
+	}
+	return t
 }
 
 func makeCallable(inst schema.Type) *schema.CallableSchema {
@@ -230,6 +267,7 @@ func workerFn(raw json.RawMessage) json.RawMessage {
 				res.Outcome, res.Text = "skip", fmt.Sprintf("setup panicked: %v", e)
 			}
 		}()
+		currentSpec = c.Spec
 		var inst schema.Type
 		var callable *schema.CallableSchema
 		if !c.Globals {
@@ -391,10 +429,15 @@ func genCase(rt *rapid.T, globals bool) Case {
 		}
 	}
 	pool = append(pool, val.V{T: "map[string]any"}, gen.Hostile(2).Draw(rt, "hostile"))
+	kinds := []string{"unserialize", "roundtrip", "roundtrip", "compat", "callstep", "callsignal", "callsignal", "describe", "rebuild"}
+	if !gen.IsRecursive(s) {
+		// schema-mode compatibility of recursive graphs is the recorded finding recursive-compat (C15)
+		kinds = append(kinds, "compat_schema", "compat_schema_mutant")
+	}
 	for g := 0; g < c.Goroutines; g++ {
 		var ops []Op
 		for i := 0; i < rapid.IntRange(1, 4).Draw(rt, "nOps"); i++ {
-			ops = append(ops, Op{Op: rapid.SampledFrom([]string{"unserialize", "roundtrip", "roundtrip", "compat", "callstep", "callsignal", "callsignal", "describe", "rebuild"}).Draw(rt, "op"), Arg: rapid.SampledFrom(pool).Draw(rt, "arg")})
+			ops = append(ops, Op{Op: rapid.SampledFrom(kinds).Draw(rt, "op"), Arg: rapid.SampledFrom(pool).Draw(rt, "arg")})
 		}
 		c.Ops = append(c.Ops, ops)
 	}
